@@ -229,14 +229,11 @@ impl StreamAlphaNode {
                 WindowType::Sliding => {
                     let cutoff_time = current_time.saturating_sub(window_duration_ms);
 
-                    // Remove events older than cutoff
-                    while let Some(event) = self.events.front() {
-                        if event.metadata.timestamp < cutoff_time {
-                            self.events.pop_front();
-                        } else {
-                            break;
-                        }
-                    }
+                    // Remove events older than cutoff. Events are buffered in arrival
+                    // order, which need not be timestamp order, so check every event
+                    // rather than only a prefix of the queue.
+                    self.events
+                        .retain(|event| event.metadata.timestamp >= cutoff_time);
                 }
                 WindowType::Tumbling => {
                     let window_start = (current_time / window_duration_ms) * window_duration_ms;
@@ -249,14 +246,10 @@ impl StreamAlphaNode {
                         self.last_window_start = window_start;
                     }
 
-                    // Remove events from previous windows
-                    while let Some(event) = self.events.front() {
-                        if event.metadata.timestamp < window_start {
-                            self.events.pop_front();
-                        } else {
-                            break;
-                        }
-                    }
+                    // Remove events from previous windows (arrival order is not
+                    // timestamp order: check every event)
+                    self.events
+                        .retain(|event| event.metadata.timestamp >= window_start);
                 }
                 WindowType::Session { timeout } => {
                     let timeout_ms = timeout.as_millis() as u64;
